@@ -42,12 +42,13 @@ import (
 // ---------- stores ----------
 
 type metricSpec struct {
-	Name string     `json:"name"`
-	Prog string     `json:"prog"`
-	Kind int        `json:"kind"` // metrics.Kind
-	Type int        `json:"type"` // metrics.Type
-	Keys []string   `json:"keys"`
-	LVs  [][]string `json:"lvs"`
+	Name   string     `json:"name"`
+	Prog   string     `json:"prog"`
+	Kind   int        `json:"kind"` // metrics.Kind
+	Type   int        `json:"type"` // metrics.Type
+	Keys   []string   `json:"keys"`
+	LVs    [][]string `json:"lvs"`
+	Hidden bool       `json:"hidden,omitempty"`
 }
 
 type storeSpec []metricSpec
@@ -110,6 +111,8 @@ func baseStore() storeSpec {
 		{Name: "t3", Prog: "p", Kind: int(metrics.Text), Type: int(metrics.String), Keys: []string{}, LVs: [][]string{{}}},
 		{Name: "tm4", Prog: "q", Kind: int(metrics.Timer), Type: int(metrics.Int), Keys: []string{"k"},
 			LVs: [][]string{{"u"}, {"v"}}},
+		{Name: "hid5", Prog: "q", Kind: int(metrics.Counter), Type: int(metrics.Int), Keys: []string{"k"},
+			LVs: [][]string{{"u"}, {"v"}}, Hidden: true},
 	}
 }
 
@@ -128,6 +131,7 @@ func randStore(r *vlib.Rand) storeSpec {
 		for j := 0; j < nk; j++ {
 			m.Keys = append(m.Keys, fmt.Sprintf("k%d", j))
 		}
+		m.Hidden = r.Chance(15)
 		nl := r.Intn(5)
 		if nk == 0 && nl > 1 {
 			nl = 1
@@ -150,6 +154,7 @@ func build(s storeSpec) (*metrics.Store, []*metrics.Metric, error) {
 	now := time.Unix(1700000000, 0)
 	for _, sp := range s {
 		m := metrics.NewMetric(sp.Name, sp.Prog, metrics.Kind(sp.Kind), metrics.Type(sp.Type), sp.Keys...)
+		m.Hidden = sp.Hidden
 		if metrics.Kind(sp.Kind) == metrics.Histogram {
 			m.Buckets = []datum.Range{{Min: 0, Max: 1}, {Min: 1, Max: 2}}
 		}
@@ -470,8 +475,9 @@ func (r *runner) classOf(t target, f fault, o obs) string {
 
 func (r *runner) run(t target, spec storeSpec, f fault) {
 	key := t.Name + "/" + t.Variant + "/" + f.Kind
-	if r.failures[key] >= 3 {
-		r.out.Count("skipped-after-3-failures " + key)
+	if r.failures[key] >= 3 || r.failures[t.Name] >= 8 {
+		// enough failing inputs of this kind; each further one costs a 500 ms wait
+		r.out.Count("skipped-after-failures " + key)
 		return
 	}
 	o, err := inject(t, spec, f)
@@ -490,6 +496,7 @@ func (r *runner) run(t target, spec storeSpec, f fault) {
 	r.out.Add(coq, j, o.Struck)
 	if !o.ok() {
 		r.failures[key]++
+		r.failures[t.Name]++
 		// minimise: only the faulted metric, then fewer label sets
 		mspec, mf, mo := spec, f, o
 		if f.Metric < len(spec) && (f.Kind == "bad-metric-name" || f.Kind == "bad-label-name" || f.Kind == "dup-label-name" || f.Kind == "bad-label-value") && r.failures[key] == 1 {
